@@ -10,7 +10,9 @@ import refcodec as rc
 import refproto as rp
 from lib import hx
 
-EXTRACT = ['ids', 'layouts', 'ref']
+EXTRACT = ['ids', 'layouts', 'ref', 'versions', 'gen.c07named']
+EXTRA_PROPS = ['C07Named']
+
 RULE = ("every release protocol of the reference table (30) x every core packet (20) x 3..5 boundary/"
         "seeded value sets per layout; frame = VarInt length + VarInt id + fields, compared byte for byte "
         "with the reference encoder; reference bytes decoded by the real reader; distinct by "
